@@ -1,6 +1,8 @@
 """C14 - closed-form transformers compute the function they document (DESIGN 2/C14)."""
 from fractions import Fraction
 
+import math
+
 import numpy as np
 import pandas as pd
 from hypothesis import strategies as st
@@ -22,7 +24,7 @@ RULE = (
 )
 ASSUMPTIONS = [
     "float results compared with rtol 1e-9; selections / paddings exactly",
-    "Slope / DerivativeSlope / DWT / HOG1D are held to the row-count and order clause only",
+    "DerivativeSlope / DWT / HOG1D are held to the row-count and order clause only (Slope: closed form for power-of-two interval counts)",
     "nearest-neighbour imputation: a tie between two equally distant neighbours may go either way",
 ]
 
@@ -558,6 +560,60 @@ def o_series_misc(case, ctx):
     return discs
 
 
+def o_slope(case, ctx):
+    """SlopeTransformer: the series is cut into num_intervals frames of (fractional) length
+    L / num_intervals, frame i = positions [int(i L / k), int((i + 1) L / k)); each value is the
+    total-least-squares gradient of its frame against 1..m. The reference takes the gradient from
+    the principal axis of the frame's scatter matrix. (k is a power of two, so that the frame
+    boundaries are exact in binary floating point.)"""
+    from sktime.transformations.panel.slope import SlopeTransformer
+
+    cells, X = panel(case)
+    k = case["num_intervals"]
+    t = SlopeTransformer(num_intervals=k)
+    L = case["lengths"][0]
+    ctx.label("length_multiple_of_intervals" if L % k == 0 else "fractional_frames")
+    ctx.mark_nontrivial(L % k != 0)
+    r = run(t, X, case=case)
+    if isinstance(r, Raised):
+        return [D("raised:slope:%s" % r.type, "L=%d num_intervals=%d: %s" % (L, k, r.msg))]
+
+    def tls(v):
+        m = len(v)
+        if m < 2:
+            return 0.0
+        x = np.arange(1, m + 1, dtype=float)
+        dx, dy = x - x.mean(), np.asarray(v, dtype=float) - np.mean(v)
+        sxy = float(dx @ dy)
+        if sxy == 0.0:
+            return 0.0
+        if abs(sxy) < 1e-9 * math.sqrt(float(dx @ dx) * float(dy @ dy)):
+            return float("nan")  # no linear association up to rounding: the gradient is not pinned down
+        S = np.array([[dx @ dx, sxy], [sxy, dy @ dy]])
+        w, V = np.linalg.eigh(S)
+        vx, vy = V[:, int(np.argmax(w))]
+        return float(vy / vx)
+
+    exp = []
+    for row in cells:
+        out_row = []
+        for v in row:
+            out_row.append(np.array([tls(v[int(i * L / k): int((i + 1) * L / k)]) for i in range(k)]))
+        exp.append(out_row)
+    # (the documented formula (w + sqrt(w^2 + r^2)) / r cancels for nearly flat frames: the
+    # comparison allows for a relative rounding error of 1e-5)
+    got = frame_cells(r)
+    d = cmp_cells([[np.zeros_like(c) for c in row] for row in got], [[np.zeros_like(c) for c in row] for row in exp], "slope")
+    if d:
+        return d
+    for i, (rg, re_) in enumerate(zip(got, exp)):
+        for j, (a, b) in enumerate(zip(rg, re_)):
+            ok = ~np.isnan(b)
+            if ok.any() and not np.allclose(a[ok], b[ok], rtol=1e-5, atol=1e-7 * max(1.0, float(np.max(np.abs(b[ok]))))):
+                return [D("values:slope", "L=%d num_intervals=%d instance %d col %d: got %s expected %s" % (L, k, i, j, a.tolist(), b.tolist()))]
+    return []
+
+
 # ------------------------------------------------------------------ strategies
 @st.composite
 def panel_cases(draw, unequal=False, max_c=3, min_len=2, extra=None):
@@ -595,6 +651,7 @@ def subchecks():
     S = lambda name, orc, strat, q=300: SubCheck(name, orc, strat, quick=q, thorough=q * 20, shards_quick=1, shards_thorough=4)  # noqa: E731
     return [
         S("padding", o_pad, panel_cases(unequal=True, extra={"pad_length": st.one_of(st.none(), i(0, 6)), "fill": st.sampled_from([0, 0, -1, 3.5]), "via_set_params": st.booleans()})),
+        S("slope_gradients", o_slope, panel_cases(unequal=False, min_len=8, extra={"num_intervals": st.sampled_from([2, 4, 8])})),
         S("truncation", o_trunc, panel_cases(unequal=True, min_len=3, extra={"lower": st.one_of(st.none(), i(0, 10)), "upper": st.one_of(st.none(), i(1, 20)), "via_set_params": st.booleans(), "over": st.sampled_from([0, 0, 0, 1, 3])})),
         S("interpolation", o_interp, panel_cases(unequal=True, extra={"length": i(1, 25)})),
         S("tabularizer", o_tab, panel_cases()),
